@@ -20,7 +20,7 @@
         (Model/Facade.v: the macro consults log::max_level, which set_config must have updated)
         -> per step, per probe ((tag idx) ...) *)
 From L4 Require Import Common.Val Model.Routing Model.Swap Model.Reloader.
-From L4 Require Model.Facade.
+From L4 Require Model.Facade Model.FlushPass.
 Local Open Scope N_scope.
 
 Definition dec_logger (v : vl) : option logger :=
@@ -264,6 +264,50 @@ Definition run_facade (cfgs sq probes : vl) : vl :=
   | _, _, _ => VBad
   end.
 
+(* kind 7: ( 7 tag0 n ( (pos kind tag m) ... ) ): a flush pass over a configuration (table tag0, n appenders);
+   while appender `pos` is flushed a configuration (tag, m) is installed - kind 0: by that appender's own flush()
+   (re-entrant), kind 1: by another thread, before the appender's flush() returns.  Then a second pass (its
+   appenders install nothing).  Result ( ((tag i) ...) of pass 1, ((tag i) ...) of pass 2 ). *)
+
+Definition dec_inst (v : vl) : option (nat * N * FlushPass.cell) :=
+  match v with
+  | VL [VN pos; VN kind; VN tag; VN m] => Some (N.to_nat pos, kind, (tag, N.to_nat m))
+  | _ => None
+  end.
+
+Fixpoint find_inst (insts : list (nat * N * FlushPass.cell)) (i : nat) : option (N * FlushPass.cell) :=
+  match insts with
+  | [] => None
+  | (p, k, c) :: rest => if Nat.eqb p i then Some (k, c) else find_inst rest i
+  end.
+
+(* the flusher moves; after the flush call of an appender with a kind-1 entry the other thread's store follows *)
+Fixpoint flush_schedule (insts : list (nat * N * FlushPass.cell)) (n i : nat) : list FlushPass.move :=
+  match n with
+  | O => [FlushPass.MFlusher]                                          (* the return *)
+  | S n' =>
+      FlushPass.MFlusher ::
+      match find_inst insts i with
+      | Some (k, c) => if k =? 1 then FlushPass.MStore c :: flush_schedule insts n' (S i) else flush_schedule insts n' (S i)
+      | None => flush_schedule insts n' (S i)
+      end
+  end.
+
+Definition enc_flushes (t : list FlushPass.fevent) : vl :=
+  VL (flat_map (fun e => match e with FlushPass.FFlush tag i => [VL [VN tag; VN (N.of_nat i)]] | _ => [] end) t).
+
+Definition run_flush (tag0 : N) (n : nat) (insts : list (nat * N * FlushPass.cell)) : vl :=
+  let reent := fun (tag : N) (i : nat) =>
+                 if tag =? tag0 then match find_inst insts i with
+                                     | Some (k, c) => if k =? 0 then Some c else None
+                                     | None => None
+                                     end
+                 else None in
+  let s1 := FlushPass.run reent (FlushPass.MFlusher :: flush_schedule insts n 0) (FlushPass.init (tag0, n)) in
+  let c1 := FlushPass.cur s1 in
+  let s2 := FlushPass.run (fun _ _ => None) (FlushPass.MFlusher :: flush_schedule [] (snd c1) 0) (FlushPass.init c1) in
+  VL [enc_flushes (FlushPass.trace s1); enc_flushes (FlushPass.trace s2)].
+
 Definition c15_run (v : vl) : vl :=
   match v with
   | VL [VN 0; cfgs; init; reent; progs; sched] => run_sched cfgs init reent progs sched
@@ -273,5 +317,10 @@ Definition c15_run (v : vl) : vl :=
   | VL [VN 4; _; texts; init; steps; _] => run_reload texts init steps
   | VL [VN 5; cfgs; sq; probes] => run_facade cfgs sq probes
   | VL [VN 6; _; texts; init; steps; _; _] => run_thread texts init steps
+  | VL [VN 7; VN tag0; VN n; insts] =>
+      match val_list dec_inst insts with
+      | Some l => run_flush tag0 (N.to_nat n) l
+      | None => VBad
+      end
   | _ => VBad
   end.
